@@ -1093,10 +1093,14 @@ class Fn:
         return out
 
     def loop_exits(self, lp):
+        """Edges leaving the loop other than its exhaustion - not counting those that only lead to
+        a panic (a failed assertion leaves by unwinding, it does not cut the traversal short)."""
         ex = []
         for b in lp["body"]:
             for d in self.succ[b]:
                 if d not in lp["body"] and (b, d) != lp["none"]:
+                    if not any(x in self.return_blocks for x in self.reach([d])):
+                        continue
                     ex.append((b, d))
         return ex
 
